@@ -178,6 +178,10 @@ class Check:
         self.add_tlc(r, label)
         if not r["ok"]:
             raise ToolError("model %s does not satisfy its properties (model/spec problem, not a code verdict):\n%s" % (label, r["out"][-3000:]))
+        # vacuity: an action of the model that was never taken means part of the specification was not exercised
+        dead = [a for a, n in r.get("coverage", {}).items() if n == 0 and a != "Init"]
+        if dead:
+            raise ToolError("model %s: actions never taken in this configuration (vacuous exploration): %s" % (label, dead))
 
     def model_must_fail(self, r, label, expect=None):
         """A witness/mutant configuration that must produce a counterexample (vacuity / sensitivity demonstration)."""
